@@ -202,13 +202,15 @@ theorem scan_left (minPw maxPw : Int) (V : Nat → Int) (s : Nat) :
         · cases h
     · simp only [Scan.cont.injEq] at h; omega
 
-/-- Termination, absence of aborts and the prefix claim, for every state the
-loop can be in: `max - min < fuel` suffices when there are at least two chunks. -/
+/-- Termination, absence of aborts, the prefix claim and the range of the
+returned position, for every state the loop can be in: `max - min < fuel`
+suffices when there are at least two chunks. -/
 theorem medianLoop_ok (cfg : Cfg) (T : Nat) (ws : List Int) (minPw maxPw : Int)
     (hc : 2 ≤ max cfg.minChunks T) :
     ∀ (fuel mn mx : Nat) (left : Int),
       mn ≤ mx → mx ≤ ws.length → left = pre ws mn → mx - mn < fuel →
-      ∃ pos l, medianLoop cfg T ws minPw maxPw fuel mn mx left = .ok (pos, l) ∧ l = pre ws pos := by
+      ∃ pos l, medianLoop cfg T ws minPw maxPw fuel mn mx left = .ok (pos, l) ∧ l = pre ws pos ∧
+        mn ≤ pos ∧ (mn < mx → pos < mx) := by
   intro fuel
   induction fuel with
   | zero => intro mn mx left _ _ _ h; omega
@@ -221,22 +223,25 @@ theorem medianLoop_ok (cfg : Cfg) (T : Nat) (ws : List Int) (minPw maxPw : Int)
     cases hr : scanFrom minPw maxPw (pre (ws.take mx)) s (mx - mn) mn mn mx left with
     | ret pos l =>
       obtain ⟨a, b, c, _, _⟩ := scan_ret _ _ _ _ _ _ _ _ _ _ _ hr
-      refine ⟨pos, l, rfl, ?_⟩
+      refine ⟨pos, l, rfl, ?_, a, fun _ => b⟩
       rw [c, pre_take _ _ _ (by omega)]
     | cont mn' mx' left' =>
       obtain ⟨a, b, c, d⟩ := scan_shrink _ _ _ _ hs1 _ _ _ _ _ _ _ _ (Nat.le_refl mn) (by omega) h1
         (Nat.le_refl _) hr
-      have hl' : left' = pre ws mn' := by
+      have hl' : left' = pre ws mn' ∧ (mn < mx → mn' < mx) := by
         rcases scan_left _ _ _ _ _ _ _ _ _ _ _ _ hr with ⟨e1, e2⟩ | ⟨e1, e2⟩
-        · rw [e2, hl, e1]
-        · rw [e1, pre_take _ _ _ (by omega)]
+        · refine ⟨?_, fun h => by omega⟩
+          rw [e2, hl, e1]
+        · refine ⟨?_, fun _ => e2⟩
+          rw [e1, pre_take _ _ _ (by omega)]
       simp only
       split
-      · exact ⟨mn', left', rfl, hl'⟩
+      · exact ⟨mn', left', rfl, hl'.1, a, hl'.2⟩
       · next hlt =>
         have hdiv : (mx - mn) / max cfg.minChunks T ≤ (mx - mn) / 2 :=
           Nat.div_le_div_left hc (by omega)
-        exact ih mn' mx' left' b (by omega) hl' (by omega)
+        obtain ⟨pos, l, e1, e2, e3, e4⟩ := ih mn' mx' left' b (by omega) hl'.1 (by omega)
+        exact ⟨pos, l, e1, e2, by omega, fun _ => by omega⟩
 
 /-- The balance facts for every state the loop can be in.  Invariant: `min < max ≤ len`,
 `left_weight = Σ ws[0..min)`, the prefix at `max` is above the bracket (or `max = len`),
